@@ -38,6 +38,9 @@ CONFIGS = {
     # the killed run starts from the assignments saved by an earlier --keep_tmp run (--read_assignments <prefix>); every run has its own
     # copy of the saved files, because stage locks are written next to them
     "from-saved-assignments": dict(n_chroms=2, extra=[], saved=True),
+    # an explicit --read_group file_name with ONE file per experiment (options derived from the number of files must be derived again by a
+    # resumed run)
+    "file-name-groups-one-file": dict(n_chroms=2, extra=[], rg_file_name=True),
     # genes and transcripts inferred by the converter (no --complete_genedb): the conversion itself touches files under the output folder
     "inferred-genes": dict(n_chroms=2, extra=[], complete=False, fresh_home=True),     # no cached conversion: the killed runs convert, too
     # one run over two experiments (--bam_list): crash points of the first experiment, between the experiments and of the second one
@@ -62,6 +65,8 @@ def make_inputs(cfg, d, seed):
                 f.write("%s\tgrp%d\n" % (r.name, i % 3))
         i = extra.index("--read_group")
         extra[i + 1] = "file:%s:0:1:\t" % tbl
+    if cfg.get("rg_file_name"):
+        extra += ["--read_group", "file_name"]
     return extra
 
 
@@ -84,7 +89,7 @@ def run(chk, scratch):
                 "directory of a -t 1 run, after .params was written; the run is killed (os._exit) immediately before it and continued with --resume (every second point with --threads 3); "
                 "quick: every distinct call site (function, operation, file kind) of 2 configurations once + random fill; thorough: every crash "
                 "point of every configuration + multi-process kills. non-trivial = distinct call sites crashed at")
-    conf_names = list(CONFIGS) if thorough else ["multi-chrom-groups-exons", "annotation-free", "force-over-previous-run", "from-saved-assignments", "two-experiments", "inferred-genes"]
+    conf_names = list(CONFIGS) if thorough else ["multi-chrom-groups-exons", "annotation-free", "force-over-previous-run", "from-saved-assignments", "two-experiments", "inferred-genes", "file-name-groups-one-file"]
     total_points = 0
     executed = 0
     sites_seen = set()
